@@ -327,6 +327,7 @@ type JStep struct {
 	CRoot int    `json:"croot"` // the writer's Root() (probe: the second handle's Root())
 	Has   []int  `json:"has"`   // chunks of the universe the writer Has (probe: unchanged writer)
 	RO    bool   `json:"ro"`    // probe: the second handle opened read-only
+	PHas  []int  `json:"phas"`  // probe: chunks of the universe the second handle Has
 }
 
 type JObs struct {
@@ -435,6 +436,12 @@ func runJournal(c Case) (JObs, error) {
 			}
 			s.RO = p.AccessMode() == chunks.ExclusiveAccessMode_ReadOnly
 			s.CRoot = rootID(pr)
+			s.PHas = []int{}
+			for _, id := range c.Univ {
+				if has, err := p.Has(ctx, chunkOf(id).Hash()); err == nil && has {
+					s.PHas = append(s.PHas, id)
+				}
+			}
 			perr := p.Put(ctx, chunkOf(op.X), noAddrs)
 			var ok bool
 			if perr == nil {
